@@ -82,12 +82,22 @@ class LPMixin(StmtMixin):
         term = z3.simplify(term)
         if self.in_spec_model(st):
             name = "spec:" + name
+        allb = self.cur_binders(st)
         if st.rec:
+            recb = set()
+            for fr in st.rec:
+                for b in fr.binders:
+                    recb.add(b.get_id())
+            extra = [b for b in allb if b.get_id() not in recb]
             g = t_and(*st.pc[st.rec[-1].pc_len:])
-            st.rec[-1].effects.append(Effect("emit", None, (), term, g, (), name=name, where=where))
+            st.rec[-1].effects.append(Effect("emit", None, (), term, g, tuple(extra), name=name, where=where))
         else:
             fams = list(st.ghost.get("__families__", ()))
-            fams.append((name, (), z3.BoolVal(True), term, where))
+            if allb:
+                g = t_and(*st.pc[st.ghost.get("__binder_pc__", len(st.pc)):])
+                fams.append((name, tuple(allb), g, term, where))
+            else:
+                fams.append((name, (), z3.BoolVal(True), term, where))
             st.ghost["__families__"] = tuple(fams)
 
     def families(self, st, spec=False):
@@ -96,6 +106,25 @@ class LPMixin(StmtMixin):
             if f[0].startswith("spec:") == spec:
                 out.append((f[0][5:] if spec else f[0],) + tuple(f[1:]))
         return out
+
+    def sort_perms(self, cb, sb):
+        """Permutations of the spec binders whose sorts line up with the code binders (bounded)."""
+        import itertools
+        out = []
+        for perm in itertools.permutations(sb):
+            if all(x.sort() == y.sort() for x, y in zip(perm, cb)):
+                out.append(list(perm))
+                if len(out) >= 24:
+                    break
+        return out
+
+    def quick_valid(self, st, goal, timeout_ms=3000):
+        s = z3.Solver()
+        s.set("timeout", timeout_ms)
+        for h in st.hyps():
+            s.add(h)
+        s.add(z3.Not(goal))
+        return s.check() == z3.unsat
 
     def family_obligations(self, st, where):
         """Emitted model == specified model, family by family (pointwise where shapes agree)."""
@@ -108,6 +137,13 @@ class LPMixin(StmtMixin):
         if not spec:
             return []
         obls = []
+        so, co = st.ghost.get("__spec_objective__"), st.ghost.get("__objective__")
+        if so is not None:
+            if co is None:
+                obls.append(Obligation("objective/missing", "family", st.hyps(), z3.BoolVal(False), where, {"text": "no objective set"}))
+            else:
+                obls.append(Obligation("objective", "family", st.hyps(), z3.simplify(self.eq(st, co, so)), where,
+                                       {"text": "objective of the emitted model == specified objective"}))
         for name in sorted(set(code) | set(spec)):
             cs, ss = code.get(name, []), spec.get(name, [])
             if not ss:
@@ -121,17 +157,39 @@ class LPMixin(StmtMixin):
             goal = None
             if len(cs) == len(ss):
                 parts = []
-                for c, s in zip(cs, ss):
-                    if len(c[1]) == len(s[1]) and all(x.sort() == y.sort() for x, y in zip(c[1], s[1])):
-                        ren = list(zip(s[1], c[1]))
-                        sg = z3.substitute(s[2], *ren) if ren else s[2]
-                        stm = z3.substitute(s[3], *ren) if ren else s[3]
-                        parts.append(self.forall(list(c[1]), t_and(c[2] == sg, z3.Implies(c[2], c[3] == stm))))
-                    else:
+                used = set()
+                for c in cs:
+                    best = None
+                    for j, s_ in enumerate(ss):
+                        if j in used or len(c[1]) != len(s_[1]):
+                            continue
+                        for perm in self.sort_perms(list(c[1]), list(s_[1])):
+                            ren = list(zip(perm, c[1]))
+                            sg = z3.substitute(s_[2], *ren) if ren else s_[2]
+                            stm = z3.substitute(s_[3], *ren) if ren else s_[3]
+                            cand = self.forall(list(c[1]), t_and(c[2] == sg, z3.Implies(c[2], c[3] == stm)))
+                            pieces = (self.forall(list(c[1]), c[2] == sg), self.forall(list(c[1]), z3.Implies(c[2], c[3] == stm)))
+                            if best is None:
+                                best = (j, cand, pieces)
+                            if self.quick_valid(st, cand):
+                                best = (j, cand, pieces)
+                                break
+                        else:
+                            continue
+                        break
+                    if best is None:
                         parts = None
                         break
+                    used.add(best[0])
+                    parts.append(best[2])
                 if parts is not None:
-                    goal = t_and(*parts)
+                    for k2, (pg, pb) in enumerate(parts):
+                        suffix = f"#{k2}" if len(parts) > 1 else ""
+                        obls.append(Obligation(f"family/{name}{suffix}/guard", "family", st.hyps(), z3.simplify(pg), cs[0][4],
+                                               {"text": f"emitted family {name}: same index set as the specified family"}))
+                        obls.append(Obligation(f"family/{name}{suffix}/body", "family", st.hyps(), z3.simplify(pb), cs[0][4],
+                                               {"text": f"emitted family {name}: same constraint as the specified family"}))
+                    continue
             if goal is None:
                 goal = t_and(*[self.family_formula(f) for f in cs]) == t_and(*[self.family_formula(f) for f in ss])
             obls.append(Obligation(f"family/{name}", "family", st.hyps(), z3.simplify(goal), cs[0][4],
@@ -196,7 +254,22 @@ class LPMixin(StmtMixin):
             self.lp_emit(st, "VAR:" + site, t_and(*facts), where)
         return v
 
+    def getattr(self, st, obj, name, node=None):
+        if name == "INF" and isinstance(obj, VRef):
+            h = self.resolve(st, obj)
+            if isinstance(h, HObj) and h.cls == "CBC":
+                return VReal(LP_INF)
+        return super().getattr(st, obj, name, node)
+
     # ------------------------------------------------------------------ spec builtins
+
+    def site_where(self, st, node):
+        """Source location of the statement of the code under verification that caused an emission."""
+        for f in reversed(st.frames):
+            cs = getattr(f, "callsite", None)
+            if cs:
+                return cs
+        return self.where(node, st)
 
     def call_spec_builtin(self, st, name, args, kw, node):
         if name not in LP_NAMES:
@@ -205,7 +278,7 @@ class LPMixin(StmtMixin):
         if name == "newvar":
             # newvar(self, vtype, lb, ub, name)
             return self.newvar(st, a[1], a[2] if len(a) > 2 else None, a[3] if len(a) > 3 else None,
-                               a[4] if len(a) > 4 else VNone(), self.where(node, st))
+                               a[4] if len(a) > 4 else VNone(), self.site_where(st, node))
         if name == "newvar_at":
             # newvar_at("template", key values...): the variable created under that name
             ok, site = pyconst(a[0])
@@ -218,7 +291,7 @@ class LPMixin(StmtMixin):
             nm = "<anon>"
             if len(a) > 2:
                 nm, _ = self.site_of(st, a[2])
-            self.lp_emit(st, nm, term, self.where(node, st))
+            self.lp_emit(st, nm, term, self.site_where(st, node) + f"/{getattr(node, 'lineno', 0)}")
             return VNone()
         if name == "family":
             # family("NAME", constraint) inside a specification model
@@ -247,7 +320,7 @@ class LPMixin(StmtMixin):
         if name == "lp_isvar":
             return VBool(getattr(a[0], "var", None) is not None)
         if name == "lp_setobjective":
-            st.ghost["__objective__"] = a[1]
+            st.ghost["__spec_objective__" if self.in_spec_model(st) else "__objective__"] = a[1]
             return VNone()
         if name == "lp_objective":
             o = st.ghost.get("__objective__")
